@@ -431,6 +431,19 @@ Theorem C20_handler_chain_counted_once : forall h st script,
   snd (heval true (LM :: st) false h script)
   = [(h, success_label true (fst (fst (heval true st true h script))))].
 Proof. exact heval_once. Qed.
+(** overlapping invocations ([interleave]: the log of a concurrent run is an interleaving of the
+    per-invocation logs, because the repaired middleware's mark is per invocation): any number of
+    applications, Retry anywhere inside, any number of invocations, ANY interleaving — exactly one
+    observation per invocation, per label the count of the invocations run one after the other *)
+Theorem C20_handler_concurrent_one_each : forall h st scripts L,
+  interleave (conc_logs true (LM :: st) h scripts) L ->
+  length L = length scripts
+  /\ forall l, hcount l L = list_sum (map (hcount l) (conc_logs true (LM :: st) h scripts)).
+Proof. exact conc_one_each. Qed.
+Theorem C20_handler_interleaving_counts : forall (ls : list (list hlabel)) L l,
+  interleave ls L -> hcount l L = list_sum (map (hcount l) ls).
+Proof. exact interleave_count. Qed.
+
 (** the pinned middleware applied twice counted twice (refuted; repaired by fix c7c0c5d) *)
 Theorem C20_handler_chain_twice_refuted :
   snd (heval false [LM; LM] false 5%N [HOk]) = [(5%N, true); (5%N, true)].
@@ -503,6 +516,8 @@ Print Assumptions C20_handler_chain_idempotent.
 Print Assumptions C20_handler_chain_runs_idempotent.
 Print Assumptions C20_handler_chain_counted_once.
 Print Assumptions C20_handler_chain_twice_refuted.
+Print Assumptions C20_handler_concurrent_one_each.
+Print Assumptions C20_handler_interleaving_counts.
 
 (** non-vacuity: metrics twice around a delay layer around a transform; a batch of two — the
     first already carries a delay, the second gets the generator's; one call of the wrapped
